@@ -43,6 +43,29 @@ def run(rep, tier, seed):
         if s is None:
             continue
         case_decompress(b, s, rule, None, klass='decompress:synthetic', expect=''.join(vals) + pl, side=rnd.choice([L, R]))
+    # mapping-sent as the LAST residue with an empty payload, mixed-width prefix-free indices in every listing order
+    # (a shorter tail must never be taken for a wider index with leading zeros)
+    import itertools
+    from core import Buffer
+    from microschc.rfc8724 import RuleFieldDescriptor, RuleDescriptor, MatchMapping, DirectionIndicator as DI, MatchingOperator as MO, CompressionDecompressionAction as CDA
+    codes = [['1', '01', '001'], ['0', '10', '110'], ['01', '1', '000', '001'], ['1', '00', '010', '011'], ['', ], ['0', '1']]
+    for code in codes:
+        perms = list(itertools.permutations(code)) if len(code) <= 3 else [code, code[::-1], code[1:] + code[:1]]
+        for perm in perms:
+            vals = [randbits(rnd, 5) for _ in perm]
+            if len(set(vals)) != len(vals):
+                continue
+            fw = {mk(v, rnd.choice([L, R])): mk(i, rnd.choice([L, R])) for v, i in zip(vals, perm)}
+            for k, (v, i) in enumerate(zip(vals, perm)):
+                pre = randbits(rnd, rnd.choice([0, 3, 8]))
+                fds = []
+                if pre:
+                    fds.append(RuleFieldDescriptor('X:p', len(pre), 0, DI.BIDIRECTIONAL, Buffer(b'', 0), MO.IGNORE, CDA.VALUE_SENT))
+                fds.append(RuleFieldDescriptor('X:m', 5, 0, DI.BIDIRECTIONAL, MatchMapping(fw), MO.MATCH_MAPPING, CDA.MAPPING_SENT))
+                rule = RuleDescriptor(id=mk(randbits(rnd, rnd.randint(1, 9))), field_descriptors=fds)
+                for pl in ('', '0', '1', '0000000'):
+                    s = bits_of(rule.id) + pre + i + pl
+                    case_decompress(b, s, rule, None, klass='decompress:mapping-last', expect=pre + v + pl, side=rnd.choice([L, R]))
     b.run()
 
 
